@@ -46,6 +46,10 @@ func envMatrix(tmp string, thorough bool) []envSpec {
 		{"other-tmp-home-sleeps", map[string]string{"TMPDIR": mk("tmp-a"), "HOME": mk("home-a"), "C14_SLEEP_MS": "3", "C14_START_DELAY_MS": "700"}},
 		{"tmpdir-missing", map[string]string{"TMPDIR": filepath.Join(tmp, "does-not-exist"), "HOME": filepath.Join(tmp, "no-home")}},
 		{"cwd-readonly-gc-pressure", map[string]string{"C14_GC_EVERY": "1", "C14_CWD": "/", "GOMAXPROCS": "3"}},
+		// a node that is restarted every few blocks (new application object over the same database): whatever the state
+		// machine keeps outside the committed state is lost at every restart
+		{"restarted-every-5-blocks", map[string]string{"C14_RESTART_EVERY": "5"}},
+		{"restarted-every-block", map[string]string{"C14_RESTART_EVERY": "1", "GOMAXPROCS": "2"}},
 	}
 	if thorough {
 		for i := 0; i < 10; i++ {
@@ -479,7 +483,16 @@ func childReplay() {
 		os.Exit(3)
 	}
 	markers := os.Getenv("C14_MARKERS") == "1"
+	restartEvery, _ := strconv.Atoi(os.Getenv("C14_RESTART_EVERY"))
+	restarts := 0
 	_, fps, err := Replay(tf, func(i int, n *core.Node) {
+		if restartEvery > 0 && (i+1)%restartEvery == 0 {
+			if err := n.Restart(); err != nil {
+				fmt.Println("child: restart failed:", err)
+				os.Exit(3)
+			}
+			restarts++
+		}
 		if markers && i == 0 {
 			// visible in a system-call trace: from here (the application is constructed, genesis and the first block
 			// are done) to the end marker the process only executes blocks
